@@ -1,12 +1,405 @@
-use crate::util::Report;
-use crate::Ctx;
-use serde_json::Value;
+//! C15 — code parameters and symbol tuples are well-formed for every K and every ESI.
+//! Runs in two build profiles: release, and `chk` (= release + debug assertions + overflow checks).
 
-pub fn run(_ctx: &Ctx, _rep: &mut Report) {
-    eprintln!("not implemented yet");
-    std::process::exit(2);
+use crate::reference as rf;
+use crate::util::{catch, simple_failure, Failure, Report, SplitMix, Stats, SubOutcome};
+use crate::Ctx;
+use raptorq::verif as rq;
+use raptorq::{ObjectTransmissionInformation, SourceBlockDecoder, SourceBlockEncoder};
+use rayon::prelude::*;
+use serde_json::{json, Value};
+use std::time::Instant;
+
+fn profile() -> &'static str {
+    if cfg!(debug_assertions) {
+        "chk"
+    } else {
+        "release"
+    }
 }
 
-pub fn replay(_sub: &str, _case: &Value) -> Result<(), String> {
-    Err("not implemented".into())
+// ---------------------------------------------------------------------------------------------
+// parameters: all K in 0..=56403
+// ---------------------------------------------------------------------------------------------
+
+fn check_params_k(k: u32) -> Result<(), String> {
+    let t2 = &rf::tables().t2;
+    // smallest table size >= K, found independently of the crate's lookup
+    let row = t2.iter().filter(|r| r.0 >= k).min_by_key(|r| r.0).ok_or("no table row")?;
+    let (kp, j, s, h, w) = *row;
+    let got = (
+        rq::extended_source_block_symbols(k),
+        rq::systematic_index(k),
+        rq::num_ldpc_symbols(k),
+        rq::num_hdpc_symbols(k),
+        rq::num_lt_symbols(k),
+    );
+    if got != (kp, j, s, h, w) {
+        return Err(format!("K={k}: accessors give (K',J,S,H,W)={got:?}, smallest Table-2 row >= K is {:?}", (kp, j, s, h, w)));
+    }
+    let l = kp + s + h;
+    if rq::num_intermediate_symbols(k) != l {
+        return Err(format!("K={k}: L={} but K'+S+H={l}", rq::num_intermediate_symbols(k)));
+    }
+    if w > l {
+        return Err(format!("K={k}: W={w} exceeds L={l}"));
+    }
+    let p = l - w;
+    if rq::num_pi_symbols(k) != p {
+        return Err(format!("K={k}: P={} but L-W={p}", rq::num_pi_symbols(k)));
+    }
+    if !rf::is_prime(s) {
+        return Err(format!("K={k}: S={s} is not prime"));
+    }
+    if !rf::is_prime(w) {
+        return Err(format!("K={k}: W={w} is not prime"));
+    }
+    let mut p1 = p;
+    while !rf::is_prime(p1) {
+        p1 += 1;
+    }
+    if rq::calculate_p1(k) != p1 {
+        return Err(format!("K={k}: P1={} but the smallest prime >= P={p} is {p1}", rq::calculate_p1(k)));
+    }
+    if w <= s {
+        return Err(format!("K={k}: B=W-S must be >= 1 (W={w}, S={s})"));
+    }
+    if !(p >= h && h >= 2) {
+        return Err(format!("K={k}: need P >= H >= 2 (P={p}, H={h})"));
+    }
+    if l >= 65536 {
+        return Err(format!("K={k}: L={l} does not fit 16 bits"));
+    }
+    if kp + s < w {
+        return Err(format!("K={k}: K'+S < W (errata 2 precondition)"));
+    }
+    Ok(())
+}
+
+fn params_all() -> SubOutcome {
+    let started = Instant::now();
+    let mut st = Stats::new();
+    let mut failures: Vec<Failure> = vec![];
+    let bad: Vec<(u32, String)> = (0u32..=56403)
+        .into_par_iter()
+        .filter_map(|k| match catch(|| check_params_k(k)) {
+            Ok(Ok(())) => None,
+            Ok(Err(m)) => Some((k, m)),
+            Err(p) => Some((k, format!("panic: {p}"))),
+        })
+        .collect();
+    st.evals(56404);
+    st.nt_enumerated(56404);
+    st.sample(|| json!({"K": 11, "params": format!("{:?}", rf::params(11))}));
+    st.sample(|| json!({"K": 56403, "params": format!("{:?}", rf::params(56403))}));
+    // table strictly increasing, 477 rows, ends at K'max
+    let t2 = &rf::tables().t2;
+    st.eval();
+    if t2.len() != 477 || t2.windows(2).any(|w| w[0].0 >= w[1].0) || t2.last().unwrap().0 != 56403 || t2[0].0 != 10 {
+        failures.push(simple_failure("params", "Table 2 is not 477 strictly increasing rows from 10 to 56403".into(), "params:table-shape".into(), Value::Null));
+    }
+    // K beyond the maximum is refused
+    st.eval();
+    if catch(|| rq::extended_source_block_symbols(56404)).is_ok() {
+        failures.push(simple_failure("params", "K=56404 accepted".into(), "params:kmax".into(), json!({"k": 56404})));
+    }
+    if let Some((k, m)) = bad.into_iter().min_by_key(|x| x.0) {
+        failures.push(simple_failure("params", m, "params:consistency".into(), json!({"k": k})));
+    }
+    failures.truncate(1);
+    SubOutcome { stats: st, failures, wall_s: started.elapsed().as_secs_f64() }
+}
+
+// ---------------------------------------------------------------------------------------------
+// tuples
+// ---------------------------------------------------------------------------------------------
+
+/// One (K', X): crate tuple == reference tuple, all components in range.
+#[inline]
+fn check_tuple(pr: &rf::Params, x: u32) -> Result<(), String> {
+    let got = rq::intermediate_tuple(x, pr.w, pr.j, pr.p1);
+    let want = rf::tuple(pr, x);
+    if got != want {
+        return Err(format!("K'={} X={x}: tuple {got:?}, RFC Tuple[K',X] is {want:?}", pr.kp));
+    }
+    let (d, a, b, d1, a1, b1) = got;
+    let ok = d >= 1
+        && d <= 30.min(pr.w - 2)
+        && a >= 1
+        && a < pr.w
+        && b < pr.w
+        && (d1 == 2 || d1 == 3)
+        && a1 >= 1
+        && a1 < pr.p1
+        && b1 < pr.p1;
+    if !ok {
+        return Err(format!("K'={} X={x}: tuple {got:?} out of range (W={}, P1={})", pr.kp, pr.w, pr.p1));
+    }
+    Ok(())
+}
+
+/// Checks X in `xs` for one K'; returns the first failing X (panics included).
+fn sweep(pr: &rf::Params, xs: impl Iterator<Item = u32> + Clone) -> Option<(u32, String)> {
+    // fast path: whole range under one catch_unwind; on any failure, bisect one by one
+    let xs2 = xs.clone();
+    let r = catch(move || {
+        for x in xs2 {
+            if let Err(m) = check_tuple(pr, x) {
+                return Some((x, m));
+            }
+        }
+        None
+    });
+    match r {
+        Ok(None) => None,
+        Ok(Some(f)) => Some(f),
+        Err(_) => {
+            for x in xs {
+                match catch(|| check_tuple(pr, x)) {
+                    Ok(Ok(())) => {}
+                    Ok(Err(m)) => return Some((x, m)),
+                    Err(p) => return Some((x, format!("K'={} X={x}: panic in intermediate_tuple ({}): {p}", pr.kp, profile()))),
+                }
+            }
+            None
+        }
+    }
+}
+
+fn inv_mod_2_32(a: u32) -> u32 {
+    // Newton iteration for the inverse of an odd number modulo 2^32
+    let mut x: u32 = a;
+    for _ in 0..5 {
+        x = x.wrapping_mul(2u32.wrapping_sub(a.wrapping_mul(x)));
+    }
+    x
+}
+
+/// All X < 2^24 + K' with (B + X*A) mod 2^32 == y (A odd, so at most one).
+fn solve_x(pr: &rf::Params, y: u32) -> Option<u32> {
+    let mut a = 53591u32.wrapping_add(pr.j.wrapping_mul(997));
+    if a % 2 == 0 {
+        a += 1;
+    }
+    let b = 10267u32.wrapping_mul(pr.j + 1);
+    let x = y.wrapping_sub(b).wrapping_mul(inv_mod_2_32(a));
+    if (x as u64) < (1u64 << 24) + pr.kp as u64 {
+        Some(x)
+    } else {
+        None
+    }
+}
+
+fn boundary_targets() -> Vec<u32> {
+    let mut t: Vec<u32> = vec![];
+    for d in 0..=8u32 {
+        t.push(d);
+        t.push(u32::MAX - d);
+    }
+    for k in 1..=255u32 {
+        for d in 0..=2u32 {
+            t.push((k << 24).wrapping_sub(1 + d));
+            t.push((k << 24) + d);
+        }
+    }
+    for k in 1..=64u32 {
+        for d in 0..=2u32 {
+            t.push((k << 16).wrapping_sub(1 + d));
+            t.push((k << 8).wrapping_sub(1 + d));
+        }
+    }
+    t.sort_unstable();
+    t.dedup();
+    t
+}
+
+fn tuple_failure(kp: u32, x: u32, msg: String) -> Failure {
+    let sig = if msg.contains("panic") {
+        if msg.contains("overflow") {
+            format!("tuple:overflow-panic:{}", profile())
+        } else {
+            format!("tuple:panic:{}", profile())
+        }
+    } else if msg.contains("out of range") {
+        "tuple:range".to_string()
+    } else {
+        "tuple:value".to_string()
+    };
+    simple_failure("tuple", msg, sig, json!({"kp": kp, "x": x, "profile": profile()}))
+}
+
+fn tuples(ctx: &Ctx) -> (SubOutcome, Vec<(u32, u32)>) {
+    let started = Instant::now();
+    let kps: Vec<u32> = rf::tables().t2.iter().map(|r| r.0).collect();
+    let thorough = ctx.tier == crate::util::Tier::Thorough;
+    let phase = (crate::util::mix(ctx.seed, 15) % 64) as u32;
+    let targets = boundary_targets();
+    // boundary-directed inputs: solve for the X that drives y onto a carry boundary
+    let mut boundary: Vec<(u32, u32)> = vec![];
+    for &kp in &kps {
+        let pr = rf::params(kp);
+        for &y in &targets {
+            if let Some(x) = solve_x(&pr, y) {
+                boundary.push((kp, x));
+            }
+        }
+    }
+    let results: Vec<(Stats, Option<Failure>)> = kps
+        .par_iter()
+        .map(|&kp| {
+            let pr = rf::params(kp);
+            let mut st = Stats::new();
+            let end = (1u32 << 24) + kp; // exclusive
+            let mut fail = None;
+            let mut run = |name: &str, xs: &mut dyn FnMut() -> Option<(u32, String)>, n: u64, st: &mut Stats| {
+                if fail.is_some() {
+                    return;
+                }
+                st.evals(n);
+                st.class_n(name, n);
+                st.nt_enumerated(n);
+                if let Some((x, m)) = xs() {
+                    fail = Some(tuple_failure(kp, x, m));
+                }
+            };
+            if thorough {
+                run("full sweep", &mut || sweep(&pr, 0..end), end as u64, &mut st);
+            } else {
+                run("X<70000", &mut || sweep(&pr, 0..70_000u32), 70_000, &mut st);
+                let lo = (1u32 << 24) - 4096;
+                run("X>=2^24-4096", &mut || sweep(&pr, lo..end), (end - lo) as u64, &mut st);
+                let n = ((lo - 70_000 - phase) as u64 + 63) / 64;
+                run("every 64th X", &mut || sweep(&pr, (70_000 + phase..lo).step_by(64)), n, &mut st);
+            }
+            let mine: Vec<u32> = boundary.iter().filter(|b| b.0 == kp).map(|b| b.1).collect();
+            run("boundary-solved X", &mut || sweep(&pr, mine.iter().copied()), mine.len() as u64, &mut st);
+            if kp == 989 {
+                st.sample(|| json!({"K'": 989, "X": 3158229, "tuple": format!("{:?}", rf::tuple(&pr, 3158229)), "why": "B + X*A = 2^32-1 (carry boundary of Rand)"}));
+                st.sample(|| json!({"K'": 989, "X": 16778204, "tuple": format!("{:?}", rf::tuple(&pr, 16778204)), "why": "largest internal symbol ID"}));
+            }
+            (st, fail)
+        })
+        .collect();
+    let mut st = Stats::new();
+    let mut failures = vec![];
+    for (s, f) in results {
+        st.merge(s);
+        if let Some(f) = f {
+            if failures.is_empty() {
+                failures.push(f);
+            }
+        }
+    }
+    st.class_n("boundary targets", targets.len() as u64);
+    (SubOutcome { stats: st, failures, wall_s: started.elapsed().as_secs_f64() }, boundary)
+}
+
+// ---------------------------------------------------------------------------------------------
+// producing and consuming boundary symbols
+// ---------------------------------------------------------------------------------------------
+
+/// Encode ISI x of a block with K = K' source symbols and decode a set that contains it.
+fn produce_consume(kp: u32, x: u32) -> Result<(), String> {
+    if kp > max_produce_kp() {
+        return Ok(());
+    }
+    if x < kp {
+        return Ok(());
+    }
+    let t = 4usize;
+    let data = SplitMix::new(kp as u64 * 31 + x as u64).bytes(kp as usize * t);
+    let cfg = ObjectTransmissionInformation::new(data.len() as u64, t as u16, 1, 1, 1);
+    let enc = SourceBlockEncoder::new(0, &cfg, &data);
+    // K = K' so ESI == ISI
+    let pkts = enc.repair_packets(x - kp, 1);
+    if pkts.len() != 1 || pkts[0].payload_id().encoding_symbol_id() != x {
+        return Err(format!("K'={kp}: repair_packets({}, 1) did not produce ESI {x}", x - kp));
+    }
+    let pr = rf::params(kp);
+    let c = enc.verif_intermediate_symbols();
+    if pkts[0].data() != &rf::enc(&pr, &c, x)[..] {
+        return Err(format!("K'={kp} ESI {x}: payload differs from Enc[K', C, Tuple[K', X]]"));
+    }
+    let mut dec = SourceBlockDecoder::new(0, &cfg, data.len() as u64);
+    let mut set: Vec<_> = enc.source_packets();
+    set.remove(0);
+    set.push(pkts[0].clone());
+    set.extend(enc.repair_packets(0, 2));
+    match dec.decode(set) {
+        Some(out) if out == data => Ok(()),
+        Some(_) => Err(format!("K'={kp}: decoding a set containing ESI {x} returned wrong bytes")),
+        None => Ok(()), // undecodable sets are C02/C03's business
+    }
+}
+
+/// The solver's debug-assertion self-checks are cubic in K', so the chk build is limited to small
+/// blocks (the tuple itself is K'-independent code).
+fn max_produce_kp() -> u32 {
+    if cfg!(debug_assertions) {
+        260
+    } else {
+        3000
+    }
+}
+
+fn produce_consume_all(boundary: &[(u32, u32)]) -> SubOutcome {
+    let started = Instant::now();
+    let mut items: Vec<(u32, u32)> = boundary.iter().copied().filter(|b| b.0 <= max_produce_kp() && b.1 >= b.0).collect();
+    // always include the largest ESI of a few block sizes
+    for kp in [10u32, 26, 101, 257, 989, 2195] {
+        if kp <= max_produce_kp() {
+            items.push((kp, (1 << 24) - 1));
+        }
+    }
+    items.sort_unstable();
+    items.dedup();
+    let results: Vec<(u32, u32, Result<(), String>)> = items
+        .par_iter()
+        .map(|&(kp, x)| {
+            let r = match catch(|| produce_consume(kp, x)) {
+                Ok(r) => r,
+                Err(p) => Err(format!("K'={kp} ESI {x}: panic while producing/consuming the symbol ({}): {p}", profile())),
+            };
+            (kp, x, r)
+        })
+        .collect();
+    let mut st = Stats::new();
+    let mut failures = vec![];
+    for (kp, x, r) in results {
+        st.eval();
+        st.nt(((kp as u64) << 32) | x as u64);
+        st.sample(|| json!({"K'": kp, "ESI": x}));
+        if let Err(m) = r {
+            if failures.is_empty() {
+                let sig = if m.contains("overflow") { format!("produce:overflow-panic:{}", profile()) } else { format!("produce:{}", if m.contains("panic") { "panic" } else { "value" }) };
+                failures.push(simple_failure("produce", m, sig, json!({"kp": kp, "x": x, "profile": profile()})));
+            }
+        }
+    }
+    SubOutcome { stats: st, failures, wall_s: started.elapsed().as_secs_f64() }
+}
+
+pub fn run(ctx: &Ctx, rep: &mut Report) {
+    rep.rule = "parameters: every K in 0..=56403 (exhaustive) against an independent lookup + trial-division primality; tuples: quick = for all 477 K': all X < 70000, all X >= 2^24-4096, every 64th X in between (seed-dependent phase), plus boundary-directed X solved from (B + X*A) mod 2^32 = y for y next to 0, 2^32, k*2^24, k*2^16, k*2^8; thorough = all X in 0..2^24+K' for all K' (8.0e9 pairs). Each (K', X) compares intermediate_tuple with the reference Tuple[K',X] and checks the ranges. Both build profiles (release; chk = overflow checks + debug assertions). Boundary X are also produced (repair_packets) and consumed (decode). Every enumerated (K', X, profile) is distinct and counted as non-trivial.".into();
+    rep.exhaustive = ctx.tier == crate::util::Tier::Thorough;
+    rep.assumptions.push("V0..V3 and Table 2 are trusted as of the pinned commit (SHA-256 pinned in golden/tables.json, checked by C04)".into());
+    rep.assumptions.push(format!("this process is the `{}` build; the driver runs the other profile as a companion and merges it", profile()));
+    if !cfg!(debug_assertions) {
+        rep.absorb("params", params_all());
+    }
+    let (out, boundary) = tuples(ctx);
+    rep.absorb(&format!("tuples[{}]", profile()), out);
+    rep.absorb(&format!("produce_consume[{}]", profile()), produce_consume_all(&boundary));
+}
+
+pub fn replay(sub: &str, case: &Value) -> Result<(), String> {
+    match sub {
+        "params" => check_params_k(case["k"].as_u64().unwrap_or(0) as u32),
+        "tuple" => {
+            let pr = rf::params(case["kp"].as_u64().unwrap() as u32);
+            check_tuple(&pr, case["x"].as_u64().unwrap() as u32)
+        }
+        "produce" => produce_consume(case["kp"].as_u64().unwrap() as u32, case["x"].as_u64().unwrap() as u32),
+        _ => Err(format!("unknown sub-check {sub}")),
+    }
 }
